@@ -55,6 +55,8 @@ pub enum Closer {
     Abort(usize),
     /// a stopper, a drainer and a killer race (three tasks)
     StopDrainKill,
+    /// drain first, then (one task) stop: the stop request outranks the backlog that is being drained
+    DrainThenStop,
 }
 
 #[derive(Clone, Debug)]
@@ -71,6 +73,9 @@ pub struct Sc {
     pub pg_event: bool,
     /// S is busy (its supervision handler awaits) instead of idle
     pub busy_sup: bool,
+    /// after the spawn A is handed to X and back to S, and then released from X once more (a stale unlink,
+    /// documented as a no-op): S is still its supervisor
+    pub stale_unlink: bool,
     /// the supervisor is draining a backlog (it is alive and still serves its supervision port) while A exits
     pub sup_drains: bool,
 }
@@ -87,7 +92,7 @@ impl Sc {
             self.senders,
             if self.child { "+child" } else { "" },
             if self.pg_event { "+pg" } else { "" },
-            if self.sup_drains { "+drainsup" } else if self.busy_sup { "+busysup" } else { "" }
+            if self.stale_unlink { "+staleunlink" } else if self.sup_drains { "+drainsup" } else if self.busy_sup { "+busysup" } else { "" }
         )
         .replace(['(', ')', '"', ' '], "")
     }
@@ -240,6 +245,12 @@ pub async fn run_scenario(sc: Sc) -> Run {
     #[cfg(feature = "alt")]
     b_ref.get_cell().monitor(a_ref.get_cell());
 
+    if sc.stale_unlink && sc.has_sup() {
+        let (ac, xc, scell) = (a_ref.get_cell(), x_ref.get_cell(), s_ref.get_cell());
+        ac.link(xc.clone());
+        ac.link(scell);
+        ac.unlink(xc);
+    }
     if sc.sup_drains {
         // two slow messages, then the drain request: S stays alive (Draining) for 6 ms of virtual time
         let _ = s_ref.cast(do_msg(90, vec![Step::SleepMs(3)]));
@@ -312,6 +323,12 @@ pub async fn run_scenario(sc: Sc) -> Run {
             Closer::StopDrainKill => {
                 a.kill();
                 ("kill", vsched::ret_stamp())
+            }
+            Closer::DrainThenStop => {
+                let _ = a.drain();
+                vsched::yield_now().await;
+                a.stop(Some("after-drain".into()));
+                ("stop", vsched::ret_stamp())
             }
             Closer::Stop(reason) => {
                 a.stop(reason.map(|s| s.to_string()));
